@@ -1055,8 +1055,10 @@ func (t *TableCache) AddEventHandler(handler EventHandler) {
 func (t *TableCache) Run(stopCh <-chan struct{}) {
 	wg := sync.WaitGroup{}
 	wg.Add(1)
+	verifSpawn()
 	go func() {
 		defer wg.Done()
+		defer verifThreadDone()
 		t.eventProcessor.Run(stopCh)
 	}()
 	wg.Wait()
@@ -1174,6 +1176,7 @@ func (e *eventProcessor) AddEvent(eventType string, table string, old model.Mode
 // Once received, it will dispatch the event to each registered handler
 func (e *eventProcessor) Run(stopCh <-chan struct{}) {
 	for {
+		verifYieldRecv(e.events, stopCh)
 		select {
 		case <-stopCh:
 			return
